@@ -93,6 +93,9 @@ func invokeGlobals(pooled bool) ugo.Map {
 // kept: one Invoker per script function for the whole run (its child VM is re-used by every call)
 func invokeGlobalsKept(pooled, kept bool) ugo.Map {
 	invokers := map[ugo.Object]*ugo.Invoker{}
+	// the host re-uses one argument buffer for all its Invoke calls: the callee must not keep or
+	// write through it
+	argbuf := make([]ugo.Object, 0, 16)
 	if kept {
 		return ugo.Map{
 			"invoke": &ugo.Function{Name: "invoke", ValueEx: func(c ugo.Call) (ugo.Object, error) {
@@ -100,7 +103,7 @@ func invokeGlobalsKept(pooled, kept bool) ugo.Map {
 					return ugo.Undefined, ugo.ErrWrongNumArguments
 				}
 				fn := c.Get(0)
-				var args []ugo.Object
+				args := argbuf[:0]
 				for i := 1; i < c.Len(); i++ {
 					args = append(args, c.Get(i))
 				}
@@ -122,7 +125,7 @@ func invokeGlobalsKept(pooled, kept bool) ugo.Map {
 				return ugo.Undefined, ugo.ErrWrongNumArguments
 			}
 			fn := c.Get(0)
-			var args []ugo.Object
+			args := argbuf[:0]
 			for i := 1; i < c.Len(); i++ {
 				args = append(args, c.Get(i))
 			}
@@ -202,8 +205,9 @@ func runInvokeTwin(args []*Sexp) *Sexp {
 			}
 			return inv.Invoke(argv...)
 		}
+		argbuf := make([]ugo.Object, 0, 16)
 		for _, s := range seq {
-			var argv []ugo.Object
+			argv := argbuf[:0]
 			for _, a := range callArgs(s) {
 				n, perr := parseIntLit(a)
 				if perr != nil {
